@@ -22,6 +22,44 @@ def is_num(v):
     return v.k in ('int', 'float', 'bool')
 
 
+_SIG_CACHE = {}
+_OPERAND_NAMES = {'a', 'b', 'x', 'y', 'arr', 'ar', 'array', 'm', 'v', 'x1',
+                  'x2', 'a1', 'a2', 'M', 'c', 'object', 'A', 'B', 'ary',
+                  'condition', 'tup', 'arrays', 'seq', 'a_min', 'a_max'}
+
+
+def _leading_keywords(name, pos, kw):
+    """Arguments of an external routine passed by keyword in the leading
+    positional slots (``rq(a=G, mode=..)``) are moved to their positions, so
+    that the models can read ``pos[k]``.  The parameter order comes from
+    ``inspect.signature`` of the installed callable (no call is made)."""
+    if not kw or not (name.startswith('numpy.') or name.startswith('scipy.')):
+        return pos, kw
+    if name not in _SIG_CACHE:
+        params = None
+        try:
+            import importlib
+            import inspect
+            modname, _, attr = name.rpartition('.')
+            obj = getattr(importlib.import_module(modname), attr)
+            params = [p.name for p in inspect.signature(obj).parameters.values()
+                      if p.kind in (p.POSITIONAL_ONLY, p.POSITIONAL_OR_KEYWORD)]
+        except Exception:
+            params = None
+        _SIG_CACHE[name] = params
+    params = _SIG_CACHE[name]
+    if not params:
+        return pos, kw
+    pos = list(pos)
+    kw = dict(kw)
+    # only the array operands (options such as order= / axis= / mode= are
+    # read by name in the models)
+    while len(pos) < len(params) and params[len(pos)] in kw and \
+            params[len(pos)] in _OPERAND_NAMES:
+        pos.append(kw.pop(params[len(pos)]))
+    return pos, kw
+
+
 UFUNC_BINOPS = {'add': ast.Add, 'subtract': ast.Sub, 'multiply': ast.Mult,
                 'true_divide': ast.Div, 'floor_divide': ast.FloorDiv,
                 'power': ast.Pow, 'mod': ast.Mod, 'remainder': ast.Mod}
@@ -163,6 +201,7 @@ class CallsMixin:
     def call_ext(self, name, pos, kw, node, env):
         I = self.I
         short = name.split('.')[-1]
+        pos, kw = _leading_keywords(name, pos, kw)
         h = getattr(self, 'x_' + name.replace('.', '_'), None)
         if h is None and name.startswith('numpy.') and name.count('.') == 1:
             h = getattr(self, 'n_' + short, None)
@@ -352,7 +391,9 @@ class CallsMixin:
         dt = self.dtype_arg(kw.get('dtype'), None)
         ints = all(a.k in ('int', 'bool') for a in args)
         if dt is None:
-            dt = 'i' if ints else 'f'
+            # an argument of unknown kind leaves the kind unknown
+            dt = 'i' if ints else (
+                'f' if any(a.k == 'float' for a in args) else None)
         if len(args) == 1:
             a = args[0]
             if a.k in ('int', 'bool'):
@@ -1098,7 +1139,40 @@ class CallsMixin:
         return ARR(None)
 
     def n_stack(self, pos, kw, node, env):
-        return self.as_arr(pos[0]) if pos else ARR(None)
+        """np.stack(seq, axis=k): a NEW axis of length len(seq) at position
+        k in front of / between the axes of the (equally shaped) items."""
+        seq = pos[0] if pos else TOP()
+        axv = self.kwarg(pos, kw, 1, 'axis')
+        ax = 0 if axv is None else self.axis_val(axv)
+        items, elem, cnt = self.I.iter_model(seq, None) \
+            if seq.k in ('list', 'tuple', 'iter') else (None, None, None)
+        if items is not None and items:
+            arrs = [self.as_arr(x) for x in items]
+            el = arrs[0]
+            n_new = Poly.const(len(items))
+            if any(x.dims is None for x in arrs) or any(
+                    len(x.dims) != len(el.dims) for x in arrs):
+                return ARR(None, el.dt)
+            dims = []
+            for i in range(len(el.dims)):
+                col = [x.dims[i] for x in arrs]
+                dims.append(col[0] if all(
+                    c is not None and col[0] is not None and same(c, col[0])
+                    for c in col) else None)
+        elif elem is not None:
+            el = self.as_arr(elem)
+            if el.dims is None:
+                return ARR(None, el.dt)
+            dims = list(el.dims)
+            n_new = cnt
+        else:
+            return ARR(None)
+        if not isinstance(ax, int) or not (-len(dims) - 1 <= ax <= len(dims)):
+            return ARR(tuple([None] * (len(dims) + 1)), el.dt)
+        if ax < 0:
+            ax += len(dims) + 1
+        dims.insert(ax, n_new)
+        return ARR(tuple(dims), el.dt, taint=el.taint)
 
     # ------------------------------------------------------------------
     # reductions
